@@ -35,7 +35,8 @@ SpecAccept(kinds, names, consts) ==
   /\ \A i \in 1..Len(names) : names[i] = "x"
   /\ \A i \in 1..Len(consts) : consts[i] \in ConstOK
 
-Traces == IF "TRACE_FILE" \in DOMAIN IOEnv THEN JsonDeserialize(IOEnv.TRACE_FILE) ELSE <<>>
+CONSTANT TraceFile
+Traces == JsonDeserialize(TraceFile)
 
 VARIABLES tid, l, st, nevals
 vars == <<tid, l, st, nevals>>
